@@ -2,6 +2,7 @@
    ExtrOcamlBasic only: bool/option/list/prod/unit/sumbool map to OCaml's;
    N, Z, positive, nat stay the extracted inductives. *)
 From Coq Require Import Extraction ExtrOcamlBasic.
-From Shroud Require Import Base.Ustr Model.Text.
+From Shroud Require Import Base.Ustr Model.Text Model.Splicer.
 Extraction Language OCaml.
-Extraction "model.ml" Text.write_continue Text.write_lines Ustr.lstrip Ustr.rstrip.
+Extraction "model.ml" Text.write_continue Text.write_lines Ustr.lstrip Ustr.rstrip
+  Splicer.get_splicers Splicer.create_splicer.
